@@ -119,6 +119,18 @@ def _with_option_files(params, service_yaml, retry_config, tmpfiles):
     return params
 
 
+def stub_pandoc_if_absent():
+    """The sandbox has no pandoc binary; docstrings that need it (markup such as :class:) would abort generation.  The stand-in returns
+    the text unchanged - only documentation text is affected, never code.  Returns True when the stub was installed."""
+    import pypandoc
+    try:
+        pypandoc.get_pandoc_path()
+        return False
+    except OSError:
+        pypandoc.convert_text = lambda source, to, format=None, extra_args=(), **kw: source
+        return True
+
+
 def build_api(files, params="", to_generate=None, extra_dep_modules=(), service_yaml=None, retry_config=None):
     """The same sequence as gapic.cli.generate.generate, in process."""
     from gapic.utils import Options
@@ -230,7 +242,7 @@ def run_isolated(module, func, timeout=600):
     p = subprocess.run([sys.executable, "-c", code], capture_output=True, text=True, timeout=timeout, env=dict(os.environ))
     out = p.stdout
     if "@@RESULT@@" not in out:
-        raise RuntimeError(f"isolated run of {module}.{func} failed: rc={p.returncode}\n{p.stderr[-1500:]}")
+        raise RuntimeError(f"isolated run of {module}.{func} failed: rc={p.returncode}\n{p.stderr[-2500:]}")
     res = json.loads(out.rsplit("@@RESULT@@", 1)[1])
     _ISO_CACHE[key] = res
     return res
